@@ -69,6 +69,12 @@ CHECKS = {
  "C04": dict(technique="CrossHair symbolic execution of one (and two chained) Transform operations after a fixed prefix - inductive step over histories - plus invert() of primitive steps; alignment invariant and exact undo asserted on every path, also after a rejected operation",
              text="From a Transform that already holds three steps, each of 21 operation kinds with symbolic arguments (and pairs of chained operations) leaves steps/docs/maps aligned and the old entries untouched, every recorded step re-applied to its recorded document gives the next one, inverting the new steps in reverse restores the pre-document exactly and each inverted step maps like the inverted map; primitive replace/attr/doc-attr/node-mark steps undo exactly under the catalogue schemas. Histories of arbitrary length follow by the (unmechanised) induction argument stated in the evidence assumptions.",
              ref="4/C04"),
+ "C10": dict(technique="CrossHair symbolic execution of one library operation (21 Transform kinds, 24 model/step/mapping/serialisation operations) with symbolic arguments between two JSON snapshots of the live set - inductive step over operation sequences",
+             text="With a template document, the slice/node/mark catalogues, a step and its map, a mapping, the first entries of a Transform and the shared singletons (Fragment.empty, Mark.none, Slice.empty, StepMap.empty) live, every path of every operation leaves all of them serialising to the same JSON (identity of recorded entries included); only the Transform being edited grows, by appending; mutating returned JSON never reaches a live object.",
+             ref="4/C10"),
+ "C16": dict(technique="CrossHair symbolic execution of ReplaceStep.merge / AddMarkStep.merge / RemoveMarkStep.merge and the apply methods with the four positions symbolic (merge conditions are equalities the solver satisfies) and slice/mark catalogue indices symbolic",
+             text="For every catalogue document, every pair of adjacent replace steps (closed and open slices) and every pair of overlapping same-mark add/remove-mark steps where step 1 applies and step 2 applies to its result, a returned merged step applies to the original document, gives a document equal to the two-step result and changes the size by the same amount; merge never raises and returns None for non-adjacent, structure or foreign steps.",
+             ref="4/C16"),
 }
 CHECKS_END = None
 
